@@ -597,7 +597,7 @@ func outcomeErrOK(it *Item, kind string, e string) bool {
 			return e == ""
 		}
 		return e == errFor(it.N).Error()
-	case OutPanicStr:
+	case OutPanicStr, OutPanicStruct:
 		return strings.Contains(e, panicStrFor(it.N))
 	case OutPanicErr:
 		return strings.Contains(e, fmt.Sprintf("PE%d-harness", it.N))
